@@ -65,10 +65,35 @@ def _null(eng, st, args, kw, node):
     yield st, V(args[0] if isinstance(args[0], Kind) else Ref("object"), NULL)
 
 
+def _str_is_int(eng, st, args, kw, node):
+    from .models import str_is_int
+    a = args[0]
+    ok, c = concrete(a)
+    if ok:
+        try:
+            int(c)
+            yield st, const(True)
+        except ValueError:
+            yield st, const(False)
+        return
+    yield st, V(BOOL, str_is_int(a.term))
+
+
+def _str_int(eng, st, args, kw, node):
+    from .models import str_int
+    a = args[0]
+    ok, c = concrete(a)
+    if ok:
+        yield st, const(int(c))
+        return
+    yield st, V(INT, str_int(a.term))
+
+
 def default_names():
     return {
         "STR": STR, "INT": INT, "BOOL": BOOL, "REAL": REAL,
         "Ref": handler(_ref, "Ref"), "SeqOf": handler(_seq, "SeqOf"), "SetOf": handler(_setk, "SetOf"),
         "wf_map": handler(_wf_map, "wf_map"), "keys_of": handler(_keys_of, "keys_of"),
         "ite": handler(_ite, "ite"), "allocated": handler(_allocated, "allocated"),
+        "str_is_int": handler(_str_is_int, "str_is_int"), "str_int": handler(_str_int, "str_int"),
     }
